@@ -29,7 +29,7 @@ def demo(repo, democc, work):
     os.environ.setdefault("SIGC_REPO", repo)
     common.REPO = repo
     common.gen_config_header(inc)
-    rc, out = sh(["g++", "-std=c++17", "-g", "-O1", "-fsanitize=address,undefined", "-I", repo, "-I", inc, democc]
+    rc, out = sh(["g++", "-std=c++17", "-g", "-O1", "-fsanitize=address,undefined", "-fno-sanitize-recover=all", "-I", repo, "-I", inc, democc]
                  + [os.path.join(repo, c) for c in LIB] + ["-o", exe])
     if rc != 0:
         return "compile-error", out[-1500:]
